@@ -49,13 +49,16 @@ static Bytes S(const std::string& s) { return Bytes(s.begin(), s.end()); }
 
 struct Shape { std::string fmt, name; std::function<Bytes(int)> build; };
 
-static Bytes bson_nest(int d, bool arr) {
-    // innermost: empty document
+// mode 0: documents only; 1: the deepest container is a document, arrays and documents alternate above it;
+// 2: the deepest container is an array, alternating above; 3: arrays only (below the root document)
+static Bytes bson_nest(int d, int mode) {
+    // innermost: empty document / empty array (same bytes)
     Bytes inner = {5, 0, 0, 0, 0};
     for (int i = 1; i < d; ++i) {
         Bytes outer; uint32_t len = 4 + 1 + 2 + (uint32_t)inner.size() + 1;
         for (int k = 0; k < 4; ++k) outer.push_back(uint8_t(len >> (8 * k)));
-        outer.push_back(arr && (i % 2 == 0) ? 0x04 : 0x03); outer.push_back(arr && (i % 2 == 0) ? '0' : 'a'); outer.push_back(0);
+        bool inner_is_array = mode == 3 || (mode == 1 && i % 2 == 0) || (mode == 2 && i % 2 == 1);
+        outer.push_back(inner_is_array ? 0x04 : 0x03); outer.push_back(inner_is_array ? '0' : 'a'); outer.push_back(0);
         outer.insert(outer.end(), inner.begin(), inner.end()); outer.push_back(0);
         inner.swap(outer);
     }
@@ -86,8 +89,20 @@ static std::vector<Shape> shapes() {
     v.push_back({"ubjson", "object", [](int d) { Bytes b; rep(b, {'{', 'i', 1, 'a'}, d - 1); put(b, {'{'}); rep(b, {'}'}, d); return b; }});
     v.push_back({"ubjson", "array-counted", [](int d) { Bytes b; rep(b, {'[', '#', 'i', 1}, d - 1); put(b, {'[', '#', 'i', 0}); return b; }});
     v.push_back({"ubjson", "object-counted", [](int d) { Bytes b; rep(b, {'{', '#', 'i', 1, 'i', 1, 'a'}, d - 1); put(b, {'{', '#', 'i', 0}); return b; }});
-    v.push_back({"bson", "document", [](int d) { return bson_nest(d, false); }});
-    v.push_back({"bson", "doc-array", [](int d) { return bson_nest(d, true); }});
+    v.push_back({"bson", "document", [](int d) { return bson_nest(d, 0); }});
+    v.push_back({"bson", "doc-array", [](int d) { return bson_nest(d, 1); }});
+    v.push_back({"bson", "array-deepest", [](int d) { return bson_nest(d, 2); }});
+    v.push_back({"bson", "arrays", [](int d) { return bson_nest(d, 3); }});
+    // arrays and maps alternating; phase p: the level i (0 = outermost) is an array when (i + p) is even.  Over d = L-1, L, L+1
+    // and both phases each container kind is met as the deepest one, at the limit and one beyond it
+    for (int p = 0; p < 2; ++p) {
+        std::string pn = p ? "mixed-map-first" : "mixed-array-first";
+        v.push_back({"cbor", pn, [p](int d) { Bytes b; for (int i = 0; i < d; ++i) { bool arr = (i + p) % 2 == 0, last = i + 1 == d; if (arr) put(b, {last ? 0x80 : 0x81}); else if (last) put(b, {0xa0}); else put(b, {0xa1, 0x61, 0x61}); } return b; }});
+        v.push_back({"cbor", pn + "-indef", [p](int d) { Bytes b; for (int i = 0; i < d; ++i) { bool arr = (i + p) % 2 == 0, last = i + 1 == d; if (arr) put(b, {0x9f}); else if (last) put(b, {0xbf}); else put(b, {0xbf, 0x61, 0x61}); } rep(b, {0xff}, d); return b; }});
+        v.push_back({"msgpack", pn, [p](int d) { Bytes b; for (int i = 0; i < d; ++i) { bool arr = (i + p) % 2 == 0, last = i + 1 == d; if (arr) put(b, {last ? 0x90 : 0x91}); else if (last) put(b, {0x80}); else put(b, {0x81, 0xa1, 0x61}); } return b; }});
+        v.push_back({"ubjson", pn, [p](int d) { Bytes b, e; for (int i = 0; i < d; ++i) { bool arr = (i + p) % 2 == 0, last = i + 1 == d; if (arr) { put(b, {'['}); e.insert(e.begin(), ']'); } else { if (last) put(b, {'{'}); else put(b, {'{', 'i', 1, 'a'}); e.insert(e.begin(), '}'); } } b.insert(b.end(), e.begin(), e.end()); return b; }});
+        v.push_back({"json", p ? "mixed-object-first" : "mixed-array-first", [p](int d) { std::string s, e; for (int i = 0; i < d; ++i) { bool arr = (i + p) % 2 == 0, last = i + 1 == d; if (arr) { s += "["; e = "]" + e; } else { s += last ? "{" : "{\"a\":"; e = "}" + e; } } return S(s + e); }});
+    }
     v.push_back({"toon", "object", [](int d) { return S(toon_nest(d)); }});
     return v;
 }
@@ -270,10 +285,15 @@ static void run_stack(int slice, int nslices) {
         if (mine()) stack_case("cbor-decode-encode-1024-" + kn, [=] { json j = jsoncons::cbor::decode_cbor<json>(cb); Bytes o; jsoncons::cbor::encode_cbor(j, o); if (o != cb) abort(); });
         if (mine()) stack_case("ojson-parse-copy-dump-1024-" + kn, [=] { ojson j = ojson::parse(text); ojson c(j); std::string s; c.dump(s); if (s != text) abort(); });
         if (mine()) stack_case("swap-move-1024-" + kn, [=] { json j = json::parse(text); json k = std::move(j); json l; l.swap(k); if (l.empty()) abort(); });
+        if (mine()) stack_case("ojson-compare-1024-" + kn, [=] { ojson j = ojson::parse(text); ojson c = ojson::parse(text); if (!(j == c) || (j < c) || (j != c)) abort(); });
+        if (mine()) stack_case("ojson-assign-swap-move-1024-" + kn, [=] { ojson j = ojson::parse(text); ojson d; d = j; ojson k = std::move(j); ojson l; l.swap(k); std::string s; l.dump_pretty(s); if (l.empty() || d.empty()) abort(); });
+        if (mine()) stack_case("ojson-cbor-decode-encode-1024-" + kn, [=] { ojson j = jsoncons::cbor::decode_cbor<ojson>(cb); Bytes o; jsoncons::cbor::encode_cbor(j, o); if (o != cb) abort(); });
         for (int deep : {100000, 1000000}) {
             if (!mine()) continue;
             std::string t2; { std::string s, e; for (int i = 0; i < deep; ++i) { bool obj = kind == 1 || (kind == 2 && i % 2 == 1); if (obj) { s += "{\"a\":"; e.push_back('}'); } else { s += "["; e.push_back(']'); } } std::reverse(e.begin(), e.end()); t2 = s + ((kind == 1 || (kind == 2 && deep % 2 == 0)) ? "1" : "") + e; if (kind == 0) t2 = std::string(deep, '[') + std::string(deep, ']'); }
             stack_case("parse-destroy-" + std::to_string(deep) + "-" + kn, [=] { jsoncons::json_options o; o.max_nesting_depth(deep + 1); json j = json::parse(t2, o); });
+            stack_case("ojson-parse-destroy-" + std::to_string(deep) + "-" + kn, [=] { jsoncons::json_options o; o.max_nesting_depth(deep + 1); ojson j = ojson::parse(t2, o); });
+            if (deep == 100000) stack_case("move-assign-over-deep-" + std::to_string(deep) + "-" + kn, [=] { jsoncons::json_options o; o.max_nesting_depth(deep + 1); json j = json::parse(t2, o); j = json(1); ojson k = ojson::parse(t2, o); k = ojson(1); json a = json::parse(t2, o); a.clear(); });
         }
     }
 }
@@ -290,12 +310,35 @@ static std::vector<Claim> claims() {
     v.push_back({"cbor", "array32", [](uint64_t n) { Bytes b = {0x9a}; be(b, n, 4); return b; }, 32});
     v.push_back({"cbor", "multi-dim", [](uint64_t n) { Bytes b = {0xd8, 0x28, 0x82, 0x82, 0x1b}; be(b, n, 8); b.push_back(0x1b); be(b, n, 8); b.push_back(0x80); return b; }, 64});
     v.push_back({"cbor", "array-in-array", [](uint64_t n) { Bytes b = {0x82, 0x01, 0x9b}; be(b, n, 8); return b; }, 64});
+    // the same heads in every position a string or container can stand in
+    v.push_back({"cbor", "text32", [](uint64_t n) { Bytes b = {0x7a}; be(b, n, 4); return b; }, 32}); v.push_back({"cbor", "bytes32", [](uint64_t n) { Bytes b = {0x5a}; be(b, n, 4); return b; }, 32}); v.push_back({"cbor", "map32", [](uint64_t n) { Bytes b = {0xba}; be(b, n, 4); return b; }, 32});
+    v.push_back({"cbor", "text-chunk", cb(3, {0x7f}), 64}); v.push_back({"cbor", "bytes-chunk", cb(2, {0x5f}), 64});
+    v.push_back({"cbor", "text-second-chunk", cb(3, {0x7f, 0x61, 0x61}), 64}); v.push_back({"cbor", "bytes-second-chunk", cb(2, {0x5f, 0x41, 0x61}), 64});
+    v.push_back({"cbor", "text-chunk32", [](uint64_t n) { Bytes b = {0x7f, 0x7a}; be(b, n, 4); return b; }, 32});
+    v.push_back({"cbor", "map-key-text", cb(3, {0xa1}), 64}); v.push_back({"cbor", "map-key-bytes", cb(2, {0xa1}), 64}); v.push_back({"cbor", "map-value-bytes", cb(2, {0xa1, 0x61, 0x61}), 64}); v.push_back({"cbor", "map-value-map", cb(5, {0xa1, 0x61, 0x61}), 64});
+    v.push_back({"cbor", "text-in-indef-array", cb(3, {0x9f}), 64}); v.push_back({"cbor", "array-in-indef-array", cb(4, {0x9f}), 64}); v.push_back({"cbor", "map-in-indef-map", cb(5, {0xbf, 0x61, 0x61}), 64});
+    v.push_back({"cbor", "negbignum", cb(2, {0xc3}), 64}); v.push_back({"cbor", "decfrac-mantissa", cb(2, {0xc4, 0x82, 0x00, 0xc2}), 64}); v.push_back({"cbor", "bigfloat-mantissa", cb(2, {0xc5, 0x82, 0x00, 0xc3}), 64});
+    v.push_back({"cbor", "tagged-text", cb(3, {0xc0}), 64}); v.push_back({"cbor", "base64url-bytes", cb(2, {0xd5}), 64}); v.push_back({"cbor", "stringref-ns-text", cb(3, {0xd9, 0x01, 0x00, 0x82}), 64});
+    for (int t = 0x40; t <= 0x57; ++t) { if (t == 0x40 || t == 0x56) continue; char nm[32]; snprintf(nm, sizeof nm, "typed-array-tag%02x", t); v.push_back({"cbor", nm, cb(2, {0xd8, t}), 64}); }
+    v.push_back({"cbor", "typed-array-in-array", cb(2, {0x81, 0xd8, 0x45}), 64});
     auto mp = [](int code) { return [=](uint64_t n) { Bytes b = {uint8_t(code)}; be(b, n, 4); return b; }; };
     v.push_back({"msgpack", "array32", mp(0xdd), 32}); v.push_back({"msgpack", "map32", mp(0xdf), 32}); v.push_back({"msgpack", "str32", mp(0xdb), 32}); v.push_back({"msgpack", "bin32", mp(0xc6), 32});
     v.push_back({"msgpack", "ext32", [](uint64_t n) { Bytes b = {0xc9}; be(b, n, 4); b.push_back(5); return b; }, 32});
+    v.push_back({"msgpack", "ext32-timestamp", [](uint64_t n) { Bytes b = {0xc9}; be(b, n, 4); b.push_back(0xff); return b; }, 32});
+    auto mpin = [](std::initializer_list<int> pre, int code) { return [=](uint64_t n) { Bytes b; put(b, pre); b.push_back(uint8_t(code)); be(b, n, 4); return b; }; };
+    v.push_back({"msgpack", "str32-in-array", mpin({0x91}, 0xdb), 32}); v.push_back({"msgpack", "bin32-in-array", mpin({0x91}, 0xc6), 32}); v.push_back({"msgpack", "array32-in-array", mpin({0x92, 0x01}, 0xdd), 32});
+    v.push_back({"msgpack", "map-key-str32", mpin({0x81}, 0xdb), 32}); v.push_back({"msgpack", "map-value-bin32", mpin({0x81, 0xa1, 0x61}, 0xc6), 32}); v.push_back({"msgpack", "map-value-map32", mpin({0x81, 0xa1, 0x61}, 0xdf), 32});
     auto ub = [](std::initializer_list<int> pre) { return [=](uint64_t n) { Bytes b; put(b, pre); b.push_back('L'); be(b, n, 8); return b; }; };
     v.push_back({"ubjson", "array-counted", ub({'[', '#'}), 63}); v.push_back({"ubjson", "array-typed-i8", ub({'[', '$', 'i', '#'}), 63}); v.push_back({"ubjson", "array-typed-u8", ub({'[', '$', 'U', '#'}), 63});
     v.push_back({"ubjson", "array-typed-f64", ub({'[', '$', 'D', '#'}), 63}); v.push_back({"ubjson", "object-counted", ub({'{', '#'}), 63}); v.push_back({"ubjson", "string", ub({'S'}), 63}); v.push_back({"ubjson", "high-precision", ub({'H'}), 63});
+    v.push_back({"ubjson", "object-key", ub({'{'}), 63}); v.push_back({"ubjson", "string-in-array", ub({'[', 'S'}), 63}); v.push_back({"ubjson", "counted-in-array", ub({'[', '[', '#'}), 63});
+    v.push_back({"ubjson", "object-typed", ub({'{', '$', 'i', '#'}), 63}); v.push_back({"ubjson", "object-value-string", ub({'{', 'i', 1, 'a', 'S'}), 63}); v.push_back({"ubjson", "array-typed-in-object", ub({'{', 'i', 1, 'a', '[', '$', 'd', '#'}), 63});
+    v.push_back({"ubjson", "typed-strings", ub({'[', '$', 'S', '#'}), 63}); v.push_back({"ubjson", "typed-arrays", ub({'[', '$', '[', '#'}), 63});
+    v.push_back({"ubjson", "string-l32", [](uint64_t n) { Bytes b = {'S', 'l'}; be(b, n, 4); return b; }, 31}); v.push_back({"ubjson", "array-counted-l32", [](uint64_t n) { Bytes b = {'[', '#', 'l'}; be(b, n, 4); return b; }, 31});
+    for (int t : {0x0d, 0x0e}) { char nm[32]; snprintf(nm, sizeof nm, "string-type%02x", t); v.push_back({"bson", nm, [t](uint64_t n) { Bytes b; le32(b, 64); put(b, {t, 'a', 0}); le32(b, n); return b; }, 31}); }
+    v.push_back({"bson", "code-w-scope", [](uint64_t n) { Bytes b; le32(b, 64); put(b, {0x0f, 'a', 0}); le32(b, n); le32(b, n); return b; }, 31});
+    v.push_back({"bson", "nested-array-size", [](uint64_t n) { Bytes b; le32(b, 64); put(b, {0x04, 'a', 0}); le32(b, n); return b; }, 31});
+    v.push_back({"bson", "string-in-nested", [](uint64_t n) { Bytes b; le32(b, 64); put(b, {0x03, 'a', 0}); le32(b, 40); put(b, {0x02, 'b', 0}); le32(b, n); return b; }, 31});
     v.push_back({"bson", "document-size", [](uint64_t n) { Bytes b; le32(b, n); b.push_back(0); return b; }, 31});
     v.push_back({"bson", "string-length", [](uint64_t n) { Bytes b; le32(b, 64); put(b, {0x02, 'a', 0}); le32(b, n); return b; }, 31});
     v.push_back({"bson", "binary-length", [](uint64_t n) { Bytes b; le32(b, 64); put(b, {0x05, 'a', 0}); le32(b, n); b.push_back(0); return b; }, 31});
